@@ -41,7 +41,7 @@ class Hist:
     def __init__(self, rng):
         self.rng = rng
         self.lines = []
-        self.blocks = []            # id -> {"n":, "code":, "w": [sym]}   sym: "n" | int | (tid, off)
+        self.blocks = []            # id -> {"n":, "code":, "w": {index: sym}}   sym: int | (tid, off); unwritten = "n"
         self.roots = [0] * NROOT    # sym
         self.expect = []            # per line: None | (kind, reachable dict id -> [word strings])
         self.dead = set()           # pieces unreachable at some G: a mutator may never name them again
@@ -56,7 +56,7 @@ class Hist:
             seen.add(i)
             b = self.blocks[i]
             if b["code"] % 32 >= 16: continue          # registered pointer-free
-            for s in b["w"]:
+            for s in b["w"].values():
                 if isinstance(s, tuple) and s[0] not in seen:
                     stack.append(s[0])
         return seen
@@ -68,7 +68,24 @@ class Hist:
         return str(s)
 
     def snapshot(self):
-        return {i: [self.show(s) for s in self.blocks[i]["w"]] for i in self.reachable()}
+        return {i: self.render(self.blocks[i]) for i in self.reachable()}
+
+    def render(self, b):
+        """the words of a piece in the drivers' run-length form: runs of 4 or more equal words are `w*count`"""
+        runs = []                       # [token, count]
+        def add(tok, cnt):
+            if cnt <= 0: return
+            if runs and runs[-1][0] == tok: runs[-1][1] += cnt
+            else: runs.append([tok, cnt])
+        pos = 0
+        for k in sorted(b["w"]):
+            add("n", k - pos); add(self.show(b["w"][k]), 1); pos = k + 1
+        add("n", b["n"] - pos)
+        out = []
+        for tok, cnt in runs:
+            if cnt >= 4: out.append("%s*%d" % (tok, cnt))
+            else: out += [tok] * cnt
+        return out
 
     # -- operations --------------------------------------------------------------------
     def emit(self, line, exp=None):
@@ -78,7 +95,7 @@ class Hist:
         # every allocation is a point where the collector may run (hook, or the heap being full):
         # what is unreachable now may never be named again
         self.dead |= set(range(len(self.blocks))) - self.dead - self.reachable()
-        self.blocks.append({"n": n, "code": code, "w": ["n"] * n})
+        self.blocks.append({"n": n, "code": code, "w": {}})
         self.roots[0] = (len(self.blocks) - 1, 0)
         self.emit("A %d %d" % (code, n))
         return len(self.blocks) - 1
@@ -215,6 +232,58 @@ def gen_structured(rng):
     out.append(h)
     return out
 
+def gen_big(rng, n, code=0):
+    """one piece of n words (> 64 KB / 1 MB / 16 MB) whose first, middle and LAST words hold the only references
+    to small pieces; a collector that scans such a piece only partly frees live pieces"""
+    h = Hist(rng)
+    big = h.alloc(code, n); h.root(1, (big, 0))
+    spots = [0, 1, n // 3, n // 2, n - 130, n - 3, n - 2, n - 1]
+    kids = []
+    for k in spots:
+        c = h.alloc(rng.randrange(0, 16), rng.choice((1, 2, 3, 6, 12, 40)))
+        h.write(c, 0, rand_val(rng))
+        h.write(big, k, h.ptr(c))
+        kids.append(c)
+        j = h.alloc(0, rng.choice((2, 33)))               # a dropped temporary in between
+    if code % 32 < 16:                                     # (a pointer-free big piece retains none of them)
+        g = h.alloc(0, 3); h.write(kids[-1], h.blocks[kids[-1]]["n"] - 1, (g, 1))  # grandchild behind the last word
+    h.root(0, 0)
+    h.gc()
+    t = h.alloc(code, n)                                   # a dropped temporary of the same size
+    if code % 32 < 16: h.write(t, n - 1, (kids[0], 0))
+    h.root(0, 0); h.gc()
+    h.write(big, n - 1, rand_val(rng)); h.gc()             # the last child (and the grandchild) go
+    h.root(1, (big, n - 1)); h.gc()                        # only an interior pointer to the last word holds the big piece
+    for k in spots[:-1]:
+        h.write(big, k, 0 if k % 2 else rand_val(rng))
+    h.gc()
+    h.root(1, 0); h.gc()
+    return h
+
+def gen_big_after_free(rng, nblocks, n, nbig):
+    """fill the heap, drop almost everything, collect, and ask for one large piece straight away"""
+    h = Hist(rng)
+    keep = h.alloc(0, 4); h.root(2, (keep, 0))
+    first = h.alloc(0, n); h.root(1, (first, 0))
+    prev = first
+    for i in range(1, nblocks):
+        b = h.alloc(0, n)
+        h.write(prev, n - 1, (b, 0))                       # chained through the last word
+        if i % 5 == 0:
+            c = h.alloc(0, 2); h.write(b, n // 2, (c, 0)); h.write(c, 1, 1000 + i)
+        prev = b
+    h.root(0, 0)
+    h.gc()
+    h.root(1, 0)                                            # everything but `keep` is garbage now
+    h.gc()
+    big = h.alloc(0, nbig)                                  # large request right after the collection freed most of the heap
+    h.write(big, nbig - 1, (keep, 1)); h.write(keep, 0, (big, nbig - 2)); h.root(0, 0)
+    h.check()
+    big2 = h.alloc(0, nbig + 77); h.write(big, nbig - 2, (big2, 0)); h.root(0, 0)
+    h.gc()
+    h.root(2, 0); h.gc()
+    return h
+
 # =========================================================================================
 # correspondence: running and comparing
 # =========================================================================================
@@ -259,6 +328,17 @@ def run_corr(ctx, build, stats):
         nops = rng.choice((40, 120, 300, 600)) if not thorough else rng.choice((40, 120, 300, 600, 1500))
         hists.append(("random%d" % k, gen_random(rng, nops, p_gc=rng.choice((0.01, 0.03, 0.08)),
                                                   noptr=rng.choice((0.0, 0.15, 0.4)), big=rng.choice((0.2, 1.0)))))
+    # (after the random histories: the heap stays large once these have run)
+    # large pieces: > 64 KB, > 1 MB, > 16 MB (words), pointer and pointer-free kinds
+    bigs = [(8200, 0), (131100, 0), (2097200, 0), (9000, 17)] if not thorough else \
+           [(8200, 0), (8193, 5), (131100, 0), (140000, 3), (2097200, 0), (2200000, 1), (9000, 17), (300000, 20), (70000, 0), (600000, 0)]
+    for n, code in bigs:
+        hists.append(("big%d/%d" % (n, code), gen_big(rng, n, code)))
+    hists.append(("bigfree-a", gen_big_after_free(rng, 24, 131072, 524288)))
+    hists.append(("bigfree-b", gen_big_after_free(rng, 300, 8200, 150000)))
+    if thorough:
+        hists.append(("bigfree-c", gen_big_after_free(rng, 40, 131072, 2097152)))
+        hists.append(("bigfree-d", gen_big_after_free(rng, 2000, 600, 1000000)))
     # one request line per history
     reqs = ["H " + " ; ".join(h.lines) for _, h in hists]
     t0 = time.time()
@@ -413,19 +493,27 @@ def deep_probe(ctx, exe, stats):
 # schedule sweep on real programs
 # =========================================================================================
 
-def prog_list():
+BIG_QUICK = ("bigblocks", "bigchurn", "bigptrs")
+
+def prog_list(thorough=False):
+    """small allocation-heavy programs, a few programs of /repo's test directories, and the large-block
+    programs of corpus/gc/big (5-40 MB live, single blocks of 200 KB .. 20 MB): three of them in the quick tier"""
     P = []
     corp = os.path.join(VERIF, "corpus", "gc")
     for f in sorted(os.listdir(corp)):
         if f.endswith(".as"):
-            P.append({"name": f[:-3], "path": os.path.join(corp, f), "lib": "aldor", "native": True})
+            P.append({"name": f[:-3], "path": os.path.join(corp, f), "lib": "aldor", "native": True, "big": False})
+    bigd = os.path.join(corp, "big")
+    for f in sorted(os.listdir(bigd)) if os.path.isdir(bigd) else []:
+        if f.endswith(".as") and (thorough or f[:-3] in BIG_QUICK):
+            P.append({"name": f[:-3], "path": os.path.join(bigd, f), "lib": "aldor", "native": True, "big": True})
     ext = [("intfact", os.path.join(ALDOR_TOP, "lib/aldor/test/intfact/intfact.as"), "aldor", True),
            ("bugreport_7", os.path.join(ALDOR_TOP, "lib/aldor/test/bugreport_7/bugreport_7.as"), "aldor", True),
            ("cross", os.path.join(ALDOR_TOP, "aldor/test/cross.as"), "foamlib", False),
            ("enumtest", os.path.join(ALDOR_TOP, "aldor/test/enumtest.as"), "foamlib", False)]
     for n, p, lib, nat in ext:
         if os.path.exists(p):
-            P.append({"name": n, "path": p, "lib": lib, "native": nat})
+            P.append({"name": n, "path": p, "lib": lib, "native": nat, "big": False})
     return P
 
 def base_cmd(build, prog):
@@ -518,7 +606,10 @@ def outcome(ref, got):
     if rc == "TIMEOUT": return "timeout"
     if isinstance(rc, int) and rc < 0: return "crash(signal %d)" % -rc
     if "program fault" in txt and "program fault" not in (out0 + err0).lower(): return "program-fault"
-    if "storage allocation error" in txt or "aldor runtime:" in txt and "aldor runtime:" not in (out0 + err0).lower(): return "storage-fault"
+    ref_txt = (out0 + err0).lower()
+    if "out of memory" in txt and "out of memory" not in ref_txt: return "out-of-memory"
+    if "storage allocation error" in txt and "storage allocation error" not in ref_txt: return "storage-fault"
+    if "aldor runtime:" in txt and "aldor runtime:" not in ref_txt: return "storage-fault"
     if re.search(r"(0x)?d{12,}", txt) and not re.search(r"(0x)?d{12,}", (out0 + err0).lower()): return "poison-pattern"
     if rc != rc0: return "exit-status(%s!=%s)" % (rc, rc0)
     if out != out0: return "stdout-differs"
@@ -543,25 +634,25 @@ def estimate_interp_allocs(build, root, prog, base_cpu):
     lo, hi = 0, 1 << 17
     while collects(hi) and hi < (1 << 27):
         lo, hi = hi, hi * 2
-    while hi - lo > max(1500, lo // 48):
+    while hi - lo > 250:
         mid = (lo + hi) // 2
         if collects(mid): lo = mid
         else: hi = mid
     return hi
 
-def native_allocs(exe, d):
-    rc, out, err, cpu = run_cpu([exe], d, {"ALDOR_VERIF_GC": "50,0", "GC_DETAIL": "1"}, 600)
-    return 50 * err.count("GC: marked")
+def native_allocs(exe, d, every=50):
+    rc, out, err, cpu = run_cpu([exe], d, {"ALDOR_VERIF_GC": "%d,0" % every, "GC_DETAIL": "1"}, 900)
+    return every * err.count("GC: marked")
 
 def run_sweep(ctx, build, stats):
     import random
     master = ctx.rng
     thorough = ctx.tier == "thorough"
     root = common.scratch("aldor-verif-gcsweep-")
-    progs = prog_list()
+    progs = prog_list(thorough)
     seeds = {(r, p["name"]): master.getrandbits(64) for p in progs for r in ("interp", "native")}
     sw = {"programs": [p["name"] for p in progs], "runs": 0, "differences": 0, "interp_allocs": {}, "native_allocs": {},
-          "collections_forced_estimate": 0}
+          "collections_forced_estimate": 0, "natural_axis_runs": 0}
     deep = {"name": "deepchain", "path": os.path.join(VERIF, "corpus", "gc", "deep", "deepchain.as"), "lib": "aldor", "native": True}
     pool = ThreadPoolExecutor(max_workers=NCPU)
     lock = threading.Lock()
@@ -603,46 +694,76 @@ def run_sweep(ctx, build, stats):
     # ---- interpreter route
     def interp_job(prog):
         rng = random.Random(seeds[("interp", prog["name"])])
-        ref = interp_run(build, root, prog, None)
+        big = prog["big"]
+        ref = interp_run(build, root, prog, None)                    # natural collection, default heap
         rc0, out0, err0, cpu0, cmd0 = ref
         if rc0 != 0 and prog["lib"] == "aldor":
             ctx.corr_broken.append(("gc", "sweep program %s" % prog["name"], "reference run fails rc=%s %s" % (rc0, (out0 + err0)[-300:]), "runs"))
             return
+        # the collector never runs (-Wno-gc) against natural collection
+        rcn, outn, errn, cpun, cmdn = interp_run(build, root, prog, None, extra=("-Wno-gc",))
+        with lock: sw["natural_axis_runs"] += 1
+        report("interp", prog, (rcn, outn, errn), (rc0, out0, err0), "(unset: natural collection; reference: -Wno-gc)", cmd0)
         refc = interp_run(build, root, prog, None, extra=("-Wcheck",))
+        report("interp", prog, (rcn, outn, errn), (refc[0], refc[1], refc[2]), "(unset, -Wcheck: natural collection with washing; reference: -Wno-gc)", refc[4])
         n = estimate_interp_allocs(build, root, prog, cpu0)
         sw["interp_allocs"][prog["name"]] = n
         jobs = []
-        ks = [1000, 3000, 10007, 50021] if not thorough else [300, 1000, 1777, 3000, 10007, 20011, 50021]
-        for k in ks:
-            js = {rng.randrange(k)} | ({0} if k == 1000 else set())
-            if thorough: js |= {rng.randrange(k) for _ in range(2)}
-            for j in sorted(js):
-                jobs.append(("%d,%d" % (k, j), (), n // k))
-        nwin = 10 if not thorough else 60
-        for w in range(nwin):
-            skip = rng.randrange(0, n + 1) if w % 3 else max(0, n - rng.randrange(0, 40000))   # a third near the end: the program's own run
-            jobs.append(("1,0,%d,100" % skip, ("-Wcheck",) if w % 4 == 0 else (), 100))
+        if not big:
+            ks = [1000, 3000, 10007, 50021] if not thorough else [300, 1000, 1777, 3000, 10007, 20011, 50021]
+            for k in ks:
+                js = {rng.randrange(k)} | ({0} if k == 1000 else set())
+                if thorough: js |= {rng.randrange(k) for _ in range(2)}
+                for j in sorted(js):
+                    jobs.append(("%d,%d" % (k, j), (), n // k))
+            nwin = 10 if not thorough else 60
+            for w in range(nwin):
+                skip = rng.randrange(0, n + 1) if w % 3 else max(0, n - rng.randrange(0, 40000))   # a third near the end: the program's own run
+                jobs.append(("1,0,%d,100" % skip, ("-Wcheck",) if w % 4 == 0 else (), 100))
+        else:
+            # a collection on a 100 MB heap costs ~0.1 s: sparse schedules and short windows only
+            for k in ([20011, 50021] if not thorough else [5003, 20011, 50021, 100003]):
+                jobs.append(("%d,%d" % (k, rng.randrange(k)), (), n // k))
+            for w in range(2 if not thorough else 12):
+                jobs.append(("1,0,%d,3" % max(0, n - rng.randrange(0, 12000)), ("-Wcheck",) if w % 2 else (), 3))
+        # natural collection after ONE forced collection, at several points (half of them in the program's own run)
+        nsingle = (5 if big else 4) if not thorough else 24
+        for w in range(nsingle):
+            skip = rng.randrange(min(n, 340000), n + 1) if w % 2 == 0 else rng.randrange(0, n + 1)   # ~340000 allocations precede the program's own run
+            jobs.append(("1,0,%d,1" % skip, ("-Wcheck",) if w % 5 == 4 else (), 1))
         def one(job):
             env, extra, ncoll = job
             rc, out, err, cpu, cmd = interp_run(build, root, prog, env, extra=extra)
             r = refc if extra else ref
-            with lock: sw["collections_forced_estimate"] += ncoll
+            with lock:
+                sw["collections_forced_estimate"] += ncoll
+                if env.endswith(",1"): sw["natural_axis_runs"] += 1
             report("interp", prog, (r[0], r[1], r[2]), (rc, out, err), env, cmd)
         return [pool.submit(one, j) for j in jobs]
 
     # ---- native route
     def native_job(prog):
         rng = random.Random(seeds[("native", prog["name"])])
+        big = prog["big"]
         exe, d, cmd, b = native_build(build, root, prog)
         if not exe:
             ctx.corr_broken.append(("gc", "sweep program %s" % prog["name"], "native build fails: %s" % (b[1] + b[2])[-300:], "builds"))
             return
-        rc0, out0, err0, cpu0 = run_cpu([exe], d, {"ALDOR_VERIF_GC": ""}, 600)
-        # the two routes must agree on the reference too (C03's business, recorded here)
-        n = native_allocs(exe, d)
+        runcmd = [" ".join(cmd), "&&", "./" + os.path.basename(exe)]
+        rc0, out0, err0, cpu0 = run_cpu([exe], d, {"ALDOR_VERIF_GC": ""}, 900)      # natural collection, default heap
+        # the compiled program has no switch that turns the collector off: its "collector never runs" reference is
+        # the interpreter under -Wno-gc (stdout and exit status; the interpreter's stderr is the compiler's)
+        rcn, outn, errn, cpun, cmdn = interp_run(build, root, prog, None, extra=("-Wno-gc",))
+        with lock: sw["natural_axis_runs"] += 1
+        if rcn == 0 or prog["lib"] == "aldor":
+            report("native", prog, (rcn, outn, ""), (rc0, out0, "" if not err0 else err0), "(unset: natural collection; reference: interpreter with -Wno-gc)", runcmd)
+        n = native_allocs(exe, d, every=500 if big else 50)
         sw["native_allocs"][prog["name"]] = n
         scheds = []
-        if not thorough:
+        if big:
+            ks = (2003, 5003) if not thorough else (503, 1009, 2003, 5003, 10007)
+            scheds = [(k, rng.randrange(k)) for k in ks]
+        elif not thorough:
             for k in (1, 2, 3):
                 scheds += [(k, j) for j in range(k)]
             for k in (4, 5):
@@ -655,13 +776,24 @@ def run_sweep(ctx, build, stats):
             for k in range(51, 1001):
                 scheds += [(k, j) for j in rng.sample(range(k), 4)]
         jobs = [("%d,%d" % kj, n // kj[0]) for kj in scheds]
-        for w in range(6 if not thorough else 40):
-            jobs.append(("1,0,%d,200" % rng.randrange(0, n + 1), 200))
+        if big:
+            for w in range(2 if not thorough else 12):
+                jobs.append(("1,0,%d,5" % max(0, n - rng.randrange(0, 6000)), 5))
+        else:
+            for w in range(6 if not thorough else 40):
+                jobs.append(("1,0,%d,200" % rng.randrange(0, n + 1), 200))
+        # natural collection after ONE forced collection
+        nsingle = (6 if big else 4) if not thorough else 30
+        for w in range(nsingle):
+            skip = rng.randrange(min(n, 16000), n + 1) if w % 2 == 0 else rng.randrange(0, n + 1)     # ~17000 allocations initialise the libraries
+            jobs.append(("1,0,%d,1" % skip, 1))
         def one(job):
             env, ncoll = job
             rc, out, err, cpu = run_cpu([exe], d, {"ALDOR_VERIF_GC": env}, 1800)
-            with lock: sw["collections_forced_estimate"] += ncoll
-            report("native", prog, (rc0, out0, err0), (rc, out, err), env, [" ".join(cmd), "&&", "./" + os.path.basename(exe)])
+            with lock:
+                sw["collections_forced_estimate"] += ncoll
+                if env.endswith(",1"): sw["natural_axis_runs"] += 1
+            report("native", prog, (rc0, out0, err0), (rc, out, err), env, runcmd)
         return [pool.submit(one, j) for j in jobs]
 
     t0 = time.time()
